@@ -288,6 +288,28 @@ def _raw_families(run, O, tok):
             for at in range(O.slot_count(kind, cs)):
                 yield "WT", O.root([inst(kind, co, cs, at=at, inner=wleaf, lf=plain)])
                 yield "WT", O.root([inst(kind, co, cs, at=at, inner=lambda: [O.R(tok()), wleaf()[0], O.R(tok())], lf=plain)])
+    # ---- every character- / enumeration-valued attribute the vocabulary has x every odd value (empty, blank, several
+    #      characters, combining-only, spacing accent, non-BMP, LaTeX/XML specials, unknown words, attribute absent):
+    #      alone, between runs, and as an operand.  No rendering is documented for them; totality, tokens, balance are.
+    def odd_node(kind, tag, how, v):
+        ov = {"ov": {tag: v}} if how == "ov" else {}
+        if kind == "r":
+            return dict(O.R(tok(), p=1), **ov)
+        base = {"acc": ({"pr": 1, "ctrl": 1}, ["e"]), "nary": ({"pr": 1, "chr": "∑", "sub": "set", "sup": "set", "limLoc": 1, "hide": 1, "ctrl": 1}, ["sub", "sup", "e"]),
+                "d": ({"pr": 1, "beg": "(", "end": ")"}, ["e", "e"]), "groupChr": ({"pr": 1}, ["e"]), "bar": ({"pr": 1}, ["e"]),
+                "f": ({"pr": 1}, ["num", "den"]), "rad": ({"pr": 2, "deg": "set"}, ["deg", "e"]), "m": ({"pr": 1}, (2, 2)),
+                "sSup": ({"pr": 1}, ["e", "sup"])}[kind]
+        o = dict(base[0], **ov)
+        if how == "opt":
+            o[{"chr": "chr", "begChr": "beg", "endChr": "end", "sepChr": "sep"}[tag]] = v
+        return inst(kind, o, base[1], ip=1 if tag == "argSz" else 0, lf=plain)
+
+    for kind, tag, how in O.ODD_ATTRS:
+        for v in O.ODD_VALUES + (O.NOVAL,):
+            yield "ODD", O.root([odd_node(kind, tag, how, v)])
+            yield "ODD", O.root([O.R(tok()), odd_node(kind, tag, how, v), O.R(tok())], para=1)
+            yield "ODD", O.root([O.N("f", {"pr": 0}, [["num", [O.R(tok())]], ["den", [odd_node(kind, tag, how, v)]]])])
+            yield "ODD", O.root([O.N("rad", {"pr": 0}, [["deg", [odd_node(kind, tag, how, v)]], ["e", [O.R(tok()), odd_node(kind, tag, how, v)]]])])
     # ---- depth 1: every variant of every element (every optional child / attribute present or absent)
     for kind in ALL:
         for opts, shape in O.variants(kind):
@@ -410,6 +432,8 @@ def _raw_families(run, O, tok):
         if O.count_nodes(spec) > 600:
             continue
         r = rng.random()
+        if 0.24 <= r < 0.32:
+            spec = _plant(O, spec, "odd-attribute-value", rng, tok)
         if r < 0.24:
             spec = _plant(O, spec, ("nary-chr-without-val", "d-delimiter-chr-without-val", "two-malformed-radicals",
                                     "d-default-delimiter-over-nested-explicit-delimiter", "one-malformed-radical",
@@ -452,6 +476,13 @@ def _plant(O, spec, feature, rng, tok):
             n["o"][rng.choice(("beg", "end"))] = O.NOVAL
         else:
             rng.choice(lists).append(O.N("d", {"pr": 1, "beg": O.NOVAL, "end": rng.choice((None, ")", O.NOVAL))}, [["e", [O.R(tok())]]]))
+    elif feature == "odd-attribute-value":            # not a risky feature: a clean tree with an attribute value nobody documents
+        c = [n for n in nodes if n["k"] in ("acc", "nary", "d")]
+        for n in rng.sample(c, min(len(c), rng.choice((1, 1, 2)))):
+            n["o"]["pr"] = 1
+            n["o"][rng.choice(("beg", "end", "sep")) if n["k"] == "d" else "chr"] = rng.choice(O.ODD_VALUES)
+        if not c:
+            rng.choice(lists).append(O.N("acc", {"pr": 1, "chr": rng.choice(O.ODD_VALUES)}, [["e", [O.R(tok())]]]))
     elif feature in ("two-malformed-radicals", "one-malformed-radical"):
         for _ in range(2 if feature.startswith("two") else 1):
             b, node = mal()
@@ -636,6 +667,7 @@ def main(run):
     for i, ob in obs.items():
         verdicts[i] = judge(O, meta[i]["a"], ob)
     compared_kind: dict[str, int] = {}
+    odd_seen: set = set()
     sampled: set = set()
     for i in sorted(obs):
         m = meta[i]
@@ -662,6 +694,10 @@ def main(run):
             for ft in ("run:text-in-w:t-of-m:r", "run:text-in-w:r"):
                 if ft in a.features:
                     run.count("clause3_checked_with_" + ft)
+        odd = [ft for ft in a.features if ft.startswith("odd:")]
+        if odd and ob.get("out") is not None:
+            run.count("odd_attribute_value_trees_converted")
+            odd_seen.update(odd)
         if a.malformed == 0 and not a.unclaimed and ob.get("out") is not None and ("d:beg=empty" in a.features or "d:end=empty" in a.features):
             run.count("clause5_template_compared_with_empty_delimiter_value")
         if not a.literal_brace:
@@ -740,12 +776,14 @@ def main(run):
     run.require("malformed_radical_trees", run.counters.get("malformed_radical_trees", 0), 300)
     for ft in ("run:text-in-w:t-of-m:r", "run:text-in-w:r"):
         run.require("clause3_checked_with_" + ft, run.counters.get("clause3_checked_with_" + ft, 0), 300)
+    run.require("odd_attribute_value_trees_converted", run.counters.get("odd_attribute_value_trees_converted", 0), 1000)
+    run.require("attributes_given_odd_values", len(odd_seen & {f"odd:{k}.{t}" for k, t, _ in O.ODD_ATTRS}), len(O.ODD_ATTRS))
     run.require("clause5_template_compared_with_empty_delimiter_value", run.counters.get("clause5_template_compared_with_empty_delimiter_value", 0), 100)
     run.require("control_twins", run.counters.get("control_twins", 0), 50)
     for f in sorted(O.RISKY):
         run.require("risky:" + f, run.counters.get("risky:" + f, 0), 10)
     run.extras["bounded_exhaustive"] = {
-        "definition": "WT: run text in <m:r><w:t> / <w:r><w:t> at top level and as each operand of each element; E1: every element x every optional child/attribute combination, with and without interleaved property elements; "
+        "definition": "ODD: every character-/enumeration-valued attribute x every odd value (vlib.gen.omml.ODD_VALUES, attribute absent) alone / between runs / as operand; WT: run text in <m:r><w:t> / <w:r><w:t> at top level and as each operand of each element; E1: every element x every optional child/attribute combination, with and without interleaved property elements; "
                       "E1-empty: every subset of operands empty; E2: depth 2 (quick: all variants x canonical both ways; thorough: all x one-factor both ways), "
                       "E2-width2: two items per operand; E3: depth 3 of canonical variants; MR/MR2: malformed radical x every continuation",
         "trees_per_family": dict(sorted(fam_counts.items())),
